@@ -105,6 +105,7 @@ where
     let mut ch = NUTSChain::<T, B, G>::new(target, init, t(acc)).set_seed(seed);
     let f = |x: T| num_traits::ToPrimitive::to_f64(&x).unwrap().to_bits();
     let mut out_runs = vec![];
+    let only_ends = c["events_filter"].as_str() == Some("stepend");
     for (n, d) in runs {
         let traced = c["trace"].as_bool().unwrap_or(true);
         let st0 = ch.adapt_state();
@@ -127,7 +128,7 @@ where
         out_runs.push(json!({"n": n, "d": d,
             "before_init": [st0.0, f(st0.1), f(st0.2), f(st0.3), f(st0.4), st0.5],
             "after_init": [st1.0, f(st1.1), f(st1.2), f(st1.3), f(st1.4), st1.5],
-            "states": states, "events": ev.iter().map(event_json).collect::<Vec<_>>()}));
+            "states": states, "events": ev.iter().filter(|e| !only_ends || matches!(e, Event::NutsStepEnd { .. } | Event::NutsStepStart { .. })).map(event_json).collect::<Vec<_>>()}));
     }
     json!({"runs": out_runs})
 }
